@@ -25,7 +25,7 @@ func one(raw json.RawMessage) interface{} {
 		panic(err)
 	}
 	normalise(&c.Input)
-	rec := Record{Case: c.Case, Input: c.Input, Model: []ModelFn{}, Facts: Facts{Stop: stopTables()}, Observed: emptyObs()}
+	rec := Record{Case: c.Case, Input: c.Input, Model: []ModelFn{}, Facts: Facts{Stop: stopTables()}, Observed: emptyObs(), Machine: c.Machine}
 	dir := scratchDir()
 	defer os.RemoveAll(dir)
 	if c.Input.Via == "cli" {
@@ -43,7 +43,7 @@ func abnormal(raw json.RawMessage, timeout bool, stderr string) interface{} {
 	var c Case
 	_ = json.Unmarshal(raw, &c)
 	normalise(&c.Input)
-	rec := Record{Case: c.Case, Input: c.Input, Model: []ModelFn{}, Facts: Facts{Stop: stopTables()}, Observed: emptyObs()}
+	rec := Record{Case: c.Case, Input: c.Input, Model: []ModelFn{}, Facts: Facts{Stop: stopTables()}, Observed: emptyObs(), Machine: c.Machine}
 	rec.Observed.Panic = true
 	rec.Observed.Note = "process died"
 	if timeout {
